@@ -1,7 +1,12 @@
 PROPERTY = "C12"
 LEVEL = "proof"
 LEAN_MODULES = ["CifModel.Props.C12", "CifModel.Lemmas.ParserTop", "CifModel.Props.C12Lex", "CifModel.Props.C12Scan", "CifModel.Props.ReviewC12",
-                "CifModel.Lemmas.ParserReach", "CifModel.Lemmas.DefectChars", "CifModel.Props.C12Chars"]
+                "CifModel.Lemmas.ParserReach", "CifModel.Lemmas.DefectChars", "CifModel.Props.C12Chars",
+                # group gW: segments of the element loop, two defects, save frames, abort-on-error handler
+                "CifModel.Lemmas.ParserDefectSeg", "CifModel.Lemmas.DefectCharsSeg", "CifModel.Lemmas.ParserDefectDie",
+                "CifModel.Props.C12Two", "CifModel.Props.C12Frames", "CifModel.Props.C12Die",
+                "CifModel.Lemmas.ParserDefectCombo", "CifModel.Lemmas.ParserDefectBare", "CifModel.Props.C12Bare",
+                "CifModel.Lemmas.LexDefectMulti", "CifModel.Props.C12ScanMulti", "CifModel.Lemmas.DefectCharsPlain"]
 REQUIRED = ["CifModel.C12_clean", "CifModel.C12_first_report_is_policy_free", "CifModel.C12_missing_value_instance",
             "CifModel.C12_unexpected_value_instance", "CifModel.C12_dup_scalar_instance", "CifModel.C12_dup_loop_header_instance",
             "CifModel.C12_partial_packet_instance", "CifModel.C12_empty_and_null_loop_instance", "CifModel.C12_no_block_header_instance",
@@ -53,7 +58,68 @@ REQUIRED = ["CifModel.C12_clean", "CifModel.C12_first_report_is_policy_free", "C
             "CifModel.C12_frame_not_allowed_at", "CifModel.C12_null_loop_at", "CifModel.C12_invalid_itemname_at",
             "CifModel.C12_invalid_framecode_at", "CifModel.C12_dup_framecode_at", "CifModel.C12_invalid_blockcode_at",
             "CifModel.C12_dup_blockcode_at", "CifModel.C12_eof_in_frame_at", "CifModel.C12_no_frame_term_at",
-            "CifModel.C12_frame_nesting_depth_at"]
+            "CifModel.C12_frame_nesting_depth_at",
+            # group gW — segments, composition (Props/C12Two, Lemmas/ParserDefectSeg)
+            "CifModel.Model.Parser.Seg.comp", "CifModel.Model.Parser.Seg.frame", "CifModel.Model.Parser.Seg.level",
+            "CifModel.Model.Parser.Seg.elems", "CifModel.Model.Parser.Seg.one", "CifModel.Model.Parser.Seg.one_inv",
+            "CifModel.C12_seg_missing_value", "CifModel.C12_seg_unexpected_value", "CifModel.C12_seg_dup_itemname",
+            "CifModel.C12_seg_invalid_itemname", "CifModel.C12_seg_unexpected_delim", "CifModel.C12_seg_partial_packet",
+            "CifModel.C12_seg_dup_header_name", "CifModel.C12_seg_missing_delim_list", "CifModel.C12_seg_null_key",
+            "CifModel.C12_seg_missing_key", "CifModel.C12_seg_table_missing_value",
+            "CifModel.C12_defects_compose", "CifModel.C12_two_defects", "CifModel.C12_two_defects_missing_value_dup_itemname",
+            # character level: any segment, save frames (one and two levels), two defects (Props/C12Frames, Lemmas/DefectCharsSeg)
+            "CifModel.Lemmas.DefectChars.block_segs_run", "CifModel.Lemmas.DefectChars.block_segs_chars",
+            "CifModel.Lemmas.DefectChars.repsAt_lines",
+            "CifModel.Props.C12_chars_segment", "CifModel.Props.C12_chars_in_frame", "CifModel.Props.C12_chars_items_in_frame",
+            "CifModel.Props.C12_chars_missing_value_in_frame", "CifModel.Props.C12_chars_unexpected_value_in_frame",
+            "CifModel.Props.C12_chars_dup_itemname_in_frame", "CifModel.Props.C12_chars_invalid_itemname_in_frame",
+            "CifModel.Props.C12_chars_partial_packet_in_frame", "CifModel.Props.C12_chars_in_nested_frame",
+            "CifModel.Props.C12_chars_two_defects", "CifModel.Props.C12_chars_missing_value_then_dup_itemname",
+            "CifModel.Props.Reports.one", "CifModel.Props.Reports.two",
+            "CifModel.Props.C12Frames.C12_chars_missing_value_in_frame_instance", "CifModel.Props.C12Frames.C12_frames_instance_lines",
+            "CifModel.Props.C12Frames.C12_chars_two_defects_instance", "CifModel.Props.C12Frames.C12_two_defects_instance_lines",
+            "CifModel.Props.C12Frames.C12_chars_in_nested_frame_instance",
+            # abort-on-error handler with content (Props/C12Die, Lemmas/ParserDefectDie)
+            "CifModel.Model.Parser.DieSeg.after_elems", "CifModel.Model.Parser.DieSeg.after_items", "CifModel.Model.Parser.DieSeg.frame",
+            "CifModel.Model.Parser.die_missing_value", "CifModel.Model.Parser.die_unexpected_value",
+            "CifModel.Model.Parser.die_dup_itemname", "CifModel.Model.Parser.die_invalid_itemname",
+            "CifModel.Model.Parser.die_unexpected_delim", "CifModel.Model.Parser.die_unexpected_term",
+            "CifModel.Lemmas.DefectChars.block_die_run", "CifModel.Lemmas.DefectChars.block_die_chars",
+            "CifModel.Props.C12_die_segment", "CifModel.Props.C12_die_items", "CifModel.Props.C12_die_items_in_frame",
+            "CifModel.Props.C12_die_missing_value", "CifModel.Props.C12_die_unexpected_value", "CifModel.Props.C12_die_dup_itemname",
+            "CifModel.Props.C12_die_invalid_itemname", "CifModel.Props.C12_die_unexpected_delim", "CifModel.Props.C12_die_unexpected_term",
+            "CifModel.Props.C12_die_missing_value_in_frame", "CifModel.Props.C12_die_dup_itemname_in_frame",
+            "CifModel.Props.C12_die_unexpected_value_in_frame", "CifModel.Props.C12_die_invalid_itemname_in_frame",
+            "CifModel.Props.C12Die.C12_die_missing_value_instance", "CifModel.Props.C12Die.C12_die_missing_value_in_frame_instance",
+            # a dropped header name and a short last packet in one loop, all instances (Lemmas/ParserDefectCombo)
+            "CifModel.Model.Parser.dup_header_partial_step_at", "CifModel.Model.Parser.short_row", "CifModel.Model.Parser.Seg.items",
+            "CifModel.C12_seg_dup_header_name_partial_packet", "CifModel.C12_dup_header_name_partial_packet",
+            "CifModel.Props.C12_chars_dup_header_name_partial_packet",
+            "CifModel.Props.C12Frames.C12_chars_dup_header_name_partial_packet_instance",
+            # CIF_INVALID_BARE_VALUE, text prefix (Props/C12Bare)
+            "CifModel.C12_seg_invalid_bare_value", "CifModel.C12_invalid_bare_value", "CifModel.C12_die_invalid_bare_value",
+            "CifModel.C12_text_prefix_never_reported",
+            # scanner level: comments, several defective places, lead surrogate anywhere (Props/C12Scan, Props/C12ScanMulti)
+            "CifModel.C12_defective_unit_comment", "CifModel.C12_defective_unit_comment_nextToken",
+            "CifModel.Model.Lexer.multi", "CifModel.Model.Lexer.EvToWs.lead", "CifModel.Model.Lexer.EvToEol.lead",
+            "CifModel.Model.Lexer.EvDelim.lead", "CifModel.Model.Lexer.EvDelim.of1",
+            "CifModel.C12_several_defects_name", "CifModel.C12_several_defects_quoted", "CifModel.C12_several_defects_comment",
+            "CifModel.C12_invalid_char_lead_anywhere", "CifModel.C12_several_defects_bare", "CifModel.C12_invalid_char_lead_bare",
+            "CifModel.Model.Lexer.multiS", "CifModel.Model.Lexer.EvUnq.lead", "CifModel.Model.Lexer.multi_bare",
+            "CifModel.Model.Lexer.EvText.lead", "CifModel.Model.Lexer.multi_text_scan", "CifModel.Model.Lexer.multi_text",
+            "CifModel.C12_several_defects_text", "CifModel.C12_several_defects_comment_eof", "CifModel.C12_several_defects_triple",
+            "CifModel.Model.Lexer.EvTriple.lead", "CifModel.Model.Lexer.multi_triple",
+            # any depth of nesting; frames not allowed (max_frame_depth = 0)
+            "CifModel.Model.Parser.Seg.nest", "CifModel.Lemmas.DefectChars.nest_fuel", "CifModel.Props.C12_chars_in_frames",
+            "CifModel.Props.C12Frames.C12_chars_in_frames_instance",
+            "CifModel.Model.Parser.elemsV_plain_at", "CifModel.Model.Parser.plain_blocks_prefix_at",
+            "CifModel.Model.Parser.plain_blocks_structure", "CifModel.Lemmas.DefectChars.block_segs_plain_chars",
+            "CifModel.Props.C12_chars_frame_not_allowed", "CifModel.Props.C12Frames.C12_chars_frame_not_allowed_instance",
+            "CifModel.Model.Parser.DieSeg.nest", "CifModel.Model.Parser.die_null_loop", "CifModel.Props.C12_die_in_frames",
+            "CifModel.Props.C12_die_null_loop", "CifModel.Model.Parser.die_dup_header_name", "CifModel.Props.C12_die_dup_header_name",
+            "CifModel.Model.Parser.die_item_of_value", "CifModel.Model.Parser.values_open_die", "CifModel.Model.Parser.die_missing_delim_list",
+            "CifModel.Props.C12_die_missing_delim_list", "CifModel.Model.Parser.die_missing_delim_table",
+            "CifModel.Props.C12_die_missing_delim_table", "CifModel.Props.C12Die.C12_die_in_frames_instance"]
 GEN = ["ErrCodes", "CharClass", "ParseConsts"]
 FAMILIES = ["defect"]
 TRUSTED_BASE = [
@@ -65,52 +131,66 @@ TRUSTED_BASE = [
     "tools/gen/parsedoc.py (renderer, denote, canonical dump); harness/x_parse.c",
 ]
 ASSUMPTIONS = [
-    "one defect per document; the callback accepts every error",
+    "the single-defect classes: one defect per document, the callback accepts every error; group gW: two defects in different "
+    "elements of one container (and the two that can meet in one loop), several defective places in one token, and the "
+    "abort-on-error handler (cif_parse_error_die) with the content in front of the defect",
     "where the documented table is not specific the oracle admits both readings: a loop without packets may be kept or pruned, an "
     "invalid bare value may come back quoted or unquoted, a NULL-keyed table entry is dropped",
+    "abort-on-error handler: 'what stands in front of the defect' is taken for the classes whose report is made before anything of "
+    "the defective construct is stored (missing value, unexpected value / delimiter / save_, duplicate and invalid item name, empty "
+    "loop header); the other classes are observed through the model comparison only",
 ]
 PARTIAL = [
-    "TOKEN LEVEL (Props/C12.lean, Props/C12Lex.lean; Lemmas/ParserDefect*.lean): for every class of the parser's recovery table that is decided on "
-    "tokens there is a universally quantified theorem over the integrated parser model — missing value, unexpected value, duplicate item name (any "
-    "spelling), empty loop, null loop, partial packet, duplicate name in a loop header, no block header, invalid item name, invalid / duplicate block "
-    "code, invalid / duplicate frame code, unexpected / missing list and table delimiters, unexpected save_ terminator, the table-key classes (missing "
-    "value, misquoted key, missing key, stray word, null key, unquoted key, `:value` in one word), invalid table index (reported since /repo 8375485), "
-    "the frame classes (unterminated frame = end of input / block header / frame header inside a frame, nesting depth, frames not allowed): any "
-    "container (block or frame at any depth), any well-formed run of elements before and behind the defect, accept-all policy: exactly one report with "
-    "the class's code, content = that of the repaired document, surroundings unaffected; each has an `_at` form that also states WHERE on the "
-    "scanner's walk the report is made (RepAt: after j tokens) and where the run ends (At).  C12_unquoted_key and C12_null_key_word are anchored at the "
-    "scanner state behind TRIM_TOKEN (their hypothesis is what the scanner feeds after the push-back).  Die policy: the result is the first code an "
-    "accept-all parse reports (C03_die_is_first / C12_die_is_first); C12_clean and C12_first_report_is_policy_free hold for all inputs and policies.  "
-    "NOT proved: two or more defects in one document (only the first report is characterised), the combination 'partial packet after a dropped header "
-    "name' (kernel-evaluated instances only), policies that accept some codes and reject others beyond what C03_prefix_determinism gives",
-    "SCANNER LEVEL (Props/C12Scan.lean; Lemmas/LexDefect*.lean, LexReserved.lean): CIF_DISALLOWED_INITIAL_CHAR, CIF_DISALLOWED_CHAR (the character is "
-    "accepted unchanged — the recovery table's 'substitute a replacement character' is not what the code does, its own comment says so; in CIF 1.1 a "
-    "character outside the CIF set that is also non-ASCII is reported TWICE, the theorem states the exact count), CIF_INVALID_CHAR for unpaired "
-    "surrogates (replaced by U+FFFD / `*`), CIF_MISSING_SPACE, CIF_MISSING_ENDQUOTE, CIF_UNCLOSED_TEXT (text field and triple-quoted string), "
-    "CIF_OVERLENGTH_LINE (exactly the terminated lines over 2048 characters, once each, with the line number; tokens and positions as without), "
-    "CIF_RESERVED_WORD (C12_reserved_word: composed with the parser half) — any scanner state in front, any admissible continuation behind, accept-all "
-    "equation and die clause.  NOT proved universally: a defective unit inside a comment, an unpaired lead surrogate elsewhere than before a closing "
-    "quote, several defects in one token, CIF_INVALID_BARE_VALUE / text-prefix classes at scanner level (decided in parse_value / the decoder), "
-    "CIF_UNMAPPED_CHAR and byte-level CIF_INVALID_CHAR (ICU's converter; family parsebytes of C03 observes them)",
-    "CHARACTER LEVEL (Props/C12Chars, Lemmas/DefectChars, Lemmas/ParserReach; group gC): for 24 classes — missing value, unexpected "
-    "value, dup item name, partial packet, dup header name, empty loop, unexpected delimiter, unexpected save_, null loop, invalid item "
-    "name, missing delimiter (list, table), table: missing value / missing key / stray word / null key, no block header, invalid / dup "
-    "block code, invalid / dup frame code, end of input / block header / frame header in a frame — the token-level class theorem is "
-    "carried to whole parses of TEXTS: any chunk list accepted by okC (every admissible presentation of every token, any whitespace and "
-    "comments between tokens), lines <= 2048, acceptable first character, any well-formed data blocks before and behind, any well-formed "
-    "runs around the defect: parse under accept-all returns CIF_OK with EXACTLY ONE report, the class's code, the content of the "
-    "repaired document (dup frame code: content as frames / loops, not as a document), and the LINE of the report: the report is made j "
-    "tokens into the text (j per class, from the RepAt conjunct of the _at forms), so it is on the line on which the j-th token of the "
-    "text ends or on the line on which the next token ends (the end of the text if there is none) — endLine / repAt_line, i.e. "
-    "posAfter 1 0 over the characters up to the end of that token; two candidates because RepAt does not say whether the following token "
-    "had already been scanned (they coincide when both tokens end on one line).  No premise on the fuel.  NOT carried to characters: "
-    "classes that cannot occur in an okC text or are anchored inside a token — invalid table index and text field in key position "
-    "(.tkey), C12_unquoted_key / C12_null_key_word (trimTok), C12_scanner_report_in_element_position; C12_frame_not_allowed "
-    "(max_frame_depth = 0 contradicts the premise of blocks_prefix / blocks_structure); defects inside save frames (the hosts are data "
-    "blocks), policies other than accept-all, more than one defect per text.",
+    "TOKEN LEVEL (Props/C12.lean, C12Lex.lean, C12Two.lean, C12Bare.lean; Lemmas/ParserDefect*.lean): for every class of the parser's recovery "
+    "table that is decided on tokens there is a universally quantified theorem over the integrated parser model — missing value, unexpected value, "
+    "duplicate item name (any spelling), empty loop, null loop, partial packet, duplicate name in a loop header, no block header, invalid item name, "
+    "invalid / duplicate block code, invalid / duplicate frame code, unexpected / missing list and table delimiters, unexpected save_ terminator, the "
+    "table-key classes, invalid table index, the frame classes, CIF_INVALID_BARE_VALUE (C12_invalid_bare_value: decided in parse_value; the text is "
+    "kept, marked quoted) — any container (block or frame at any depth), any well-formed run of elements before and behind the defect, accept-all "
+    "policy: exactly one report with the class's code, content = that of the repaired document, surroundings unaffected; each has an `_at` form "
+    "(where on the scanner's walk the report is made, where the run ends).  CIF_MISSING_PREFIX is never reported by the code: "
+    "C12_text_prefix_never_reported (every body, every policy).  TWO OR MORE DEFECTS (group gW): the `_at` statements are SEGMENTS of the element "
+    "loop (`Seg`, Lemmas/ParserDefectSeg) that compose — C12_two_defects / C12_defects_compose: two (n) defects in different elements of one "
+    "container are each reported once, with their class's codes, in document order, at their positions, content = all repairs applied; the class "
+    "theorems are available as segments (C12_seg_<class>: 12 classes).  The one combination inside ONE element — a dropped header name and a short "
+    "last packet in the same loop — is proved for ALL instances (C12_dup_header_name_partial_packet; before: evaluated instances).  ABORT-ON-ERROR "
+    "handler: return value = the class's code, exactly one report, AND the content: what stands in front of the defect, nothing behind it (`DieSeg`, "
+    "Lemmas/ParserDefectDie: missing value, unexpected value, duplicate / invalid item name, unexpected delimiter, unexpected save_, empty loop header, duplicate name in a loop header, unterminated list / table (`die_item_of_value`: any abort inside parse_value leaves the item unstored), invalid bare "
+    "value; in a block and inside save frames nested to any depth — every open frame exists, unpruned: DieSeg.nest).  NOT proved: the die-policy content for the classes whose report "
+    "is made after part of the construct has been stored or inside a table (partial packet, table-key classes, frame and block "
+    "classes) — for them only return value and log (C03_die_is_first); policies that accept some codes and reject others beyond "
+    "C03_prefix_determinism; two defects when the first is one of the scanner-level classes (those are next_token statements, not segments)",
+    "SCANNER LEVEL (Props/C12Scan.lean, C12ScanMulti.lean; Lemmas/LexDefect*.lean, LexReserved.lean): CIF_DISALLOWED_INITIAL_CHAR, "
+    "CIF_DISALLOWED_CHAR (accepted unchanged; in CIF 1.1 a non-ASCII non-CIF character is reported TWICE), CIF_INVALID_CHAR for unpaired "
+    "surrogates (replaced by U+FFFD / `*`), CIF_MISSING_SPACE, CIF_MISSING_ENDQUOTE, CIF_UNCLOSED_TEXT, CIF_OVERLENGTH_LINE, CIF_RESERVED_WORD — any "
+    "scanner state in front, any admissible continuation behind, accept-all equation and die clause.  Group gW: a defective unit inside a COMMENT "
+    "(C12_defective_unit_comment: same reports, no token, the loop goes on at the terminator as behind the clean comment; die clause); SEVERAL "
+    "defective places in one token and an unpaired LEAD surrogate ANYWHERE followed by an ordinary character (C12_several_defects_name / _quoted / "
+    "_comment, C12_invalid_char_lead_anywhere: a token body is any alternation of admissible runs and events; exactly the reports of the events, each "
+    "at its column, in order; die = the oldest) — for data names, comments (ended by a line terminator or by the end of the input), whitespace-delimited values (both dialects; scan_unquoted's data_/save_ "
+    "keyword state is carried along: multiS, C12_several_defects_bare), text fields (both dialects; positions and reports follow the line breaks "
+    "inside the token: C12_several_defects_text), quoted and triple-quoted strings (CIF 2.0; C12_several_defects_triple).  NOT proved universally: "
+    "several defective places in a CIF 1.1 quoted string (embedded quotes); a lead surrogate "
+    "followed by another defective unit; CIF_UNMAPPED_CHAR and byte-level CIF_INVALID_CHAR (ICU's converter; family "
+    "parsebytes of C03 observes them)",
+    "CHARACTER LEVEL (Props/C12Chars, C12Frames, C12Die; Lemmas/DefectChars*, ParserReach): the token-level class theorems carried to whole parses "
+    "of TEXTS — any chunk list accepted by okC (every admissible presentation of every token, any whitespace and comments between tokens), lines "
+    "<= 2048, acceptable first character, any well-formed data blocks before and behind: rc, the EXACT list of reports (codes in order), the LINE of "
+    "each (two candidates, as before), the content of the repaired document; no premise on the fuel.  24 classes with a data block as host (group "
+    "gC); group gW: ANY segment of a block's element loop (C12_chars_segment) — hence defects INSIDE SAVE FRAMES at one level "
+    "(C12_chars_in_frame, C12_chars_items_in_frame, written out for missing value, unexpected value, dup / invalid item name, partial packet), two "
+    "levels (C12_chars_in_nested_frame) and ANY depth (C12_chars_in_frames over a nesting context, `Seg.nest`); TWO DEFECTS per text "
+    "(C12_chars_two_defects, written out for missing value then duplicate name; C12_chars_dup_header_name_partial_packet); the DIE policy "
+    "(C12_die_<class>, C12_die_<class>_in_frame: rc = code, one report, its line, content in front of the defect; what follows the defect is "
+    "arbitrary accepted text); C12_chars_frame_not_allowed (max_frame_depth = 0, frame-free blocks around: Lemmas/DefectCharsPlain).  NOT carried "
+    "to characters: classes that cannot occur in an okC text or are anchored inside a token — invalid table index and text field in key position "
+    "(`.tkey` is not a token of Lemmas/LexGlue's `Tk`), C12_unquoted_key / C12_null_key_word (trimTok), CIF_INVALID_BARE_VALUE (no `Tk` presents "
+    "such a value), C12_scanner_report_in_element_position; the die policy for the remaining classes (C12_die_in_frames covers any depth); the other item-level "
+    "classes inside frames are one application of C12_chars_items_in_frame to their C12_seg_ theorem each (not written out)",
 ]
 LEVEL_TEXT = ("Theorems about the executable integrated parser model + differential correspondence on planted defects (class x "
-              "position x host) with an implementation-level oracle: first callback = documented code at a line within the "
-              "defect .. following token, recovered content = documented recovery applied to the host.")
+              "position x host, hosts with nested save frames, pairs of defects, several defective places in one token, the "
+              "abort-on-error handler with content) with an implementation-level oracle: callbacks = documented codes at lines "
+              "within the defect .. following token, recovered content = documented recovery applied to the host.")
 LEVEL_NOTE = "see PARTIAL"
 TECHNIQUE = "Lean 4 proof about an executable model + differential correspondence with an independent oracle"
